@@ -89,7 +89,8 @@ inductive Eff where
   | setFlag (r : Nat)
   /-- `u.name = v` -/
   | setName (u : Nat) (v : Int)
-  /-- `o.as_readonly(recursive=False)` (qube.py:1930-1937): the documented effect of broadcasting -/
+  /-- `o.as_readonly(recursive=False)` (qube.py:1946-1964): the documented effect of broadcasting; marks the object
+      and all of its derivatives -/
   | markRO (o : Nat)
   /-- a statement that may raise: raises iff bit `n` of the schedule is set -/
   | raiseIf (n : Nat)
@@ -136,6 +137,26 @@ def Heap.setWr (h : Heap) (a : Nat) : Heap :=
 def Heap.setWrOpt (h : Heap) : Option Nat → Heap
   | some a => h.setWr a
   | none => h
+
+/-- `x.as_readonly()` on one object without looking at its derivatives (qube.py:1946-1953): nothing if the flag is
+    already set, else WRITEABLE is cleared on both arrays and `_readonly_` is set -/
+def Heap.freezeObj (h : Heap) (x : Nat) : Heap :=
+  if (h.obj x).ro then h
+  else
+    let h1 := (h.setWrOpt (h.obj x).vals).setWrOpt (h.obj x).mask
+    let ox := h1.obj x
+    let ox' : Obj := { ox with ro := true }
+    { h1 with obj := upd h1.obj x ox' }
+
+def Heap.freezeAll (h : Heap) : List Nat → Heap
+  | [] => h
+  | x :: xs => (h.freezeObj x).freezeAll xs
+
+/-- `x.as_readonly(recursive)` as it is now (qube.py:1946-1964): an already read-only object is returned as is;
+    otherwise the object AND every derivative are marked ("a read-only object never carries writable
+    derivatives", whether or not `recursive`) -/
+def Heap.freezeTree (h : Heap) (x : Nat) : Heap :=
+  if (h.obj x).ro then h else (h.freezeObj x).freezeAll ((h.obj x).derivs.map (·.2))
 
 /-- one statement (only called on a state that has not raised) -/
 def step (A : Args) (e : Eff) (s : St) : St :=
@@ -209,13 +230,7 @@ def step (A : Args) (e : Eff) (s : St) : St :=
     | _ => s.fail
   | .markRO o =>
     match s.env o with
-    | .obj x =>
-      if (s.h.obj x).ro then s
-      else
-        let h1 := (s.h.setWrOpt (s.h.obj x).vals).setWrOpt (s.h.obj x).mask
-        let ox := h1.obj x
-        let ox' : Obj := { ox with ro := true }
-        { s with h := { h1 with obj := upd h1.obj x ox' } }
+    | .obj x => { s with h := s.h.freezeTree x }
     | _ => s.fail
   | .raiseIf n => if A.sched n then s.fail else s
 
@@ -358,10 +373,13 @@ def fancy (keys : List Nat) : List Eff := uniform keys .computed .computed
 /-- a method that hands back its receiver -/
 def self : List Eff := [.arg 0 0]
 
-/-- `broadcast_to` (qube.py:4533-4606) of an array-valued object to another shape: the receiver and each of its
-    derivatives are marked read-only (the documented side effect), the result holds read-only views -/
+/-- `broadcast_to` (qube.py broadcast_to) of an array-valued object to another shape: `self.as_readonly(recursive=
+    False)` marks the receiver and (since "a read-only object never carries writable derivatives") each of its
+    derivatives read-only — the documented side effect — BEFORE `np.broadcast_to` validates the shape (`raiseIf 0`:
+    an incompatible shape raises ValueError with the marking already done); the result holds read-only views.
+    `keys` = the derivatives carried over (none for `recursive=False`). -/
 def broadcast (keys : List Nat) : List Eff :=
-  [.arg 1 0, .markRO 1] ++ rebuild 0 1 10 .viewOf .viewOf ++ [.markRO 0] ++
+  [.arg 1 0, .markRO 1, .raiseIf 0] ++ rebuild 0 1 10 .viewOf .viewOf ++ [.markRO 0] ++
   keys.flatMap fun k => [.getDeriv 20 1 k, .markRO 20] ++ rebuild 21 20 22 .viewOf .viewOf ++
                         [.markRO 21, .setDeriv 0 k 21]
 
